@@ -23,7 +23,6 @@ pub static LAST_PANIC: Mutex<Option<(String, String)>> = Mutex::new(None);
 static CUR_IDX: AtomicU64 = AtomicU64::new(u64::MAX);
 static CUR_START_MS: AtomicU64 = AtomicU64::new(0);
 
-pub const STREAMS: &[&str] = &["glif", "ufo", "ds", "api", "names"];
 pub const HANG_MS: u64 = 60_000;
 
 fn now_ms() -> u64 {
@@ -377,7 +376,7 @@ fn counts(tier: &str) -> Vec<(&'static str, u64)> {
         return vec![("glif", 60_000), ("ufo", 20_000), ("ds", 10_000), ("api", 40_000), ("names", 40_000)];
     }
     if tier == "thorough" {
-        vec![("glif", 450_000), ("ufo", 120_000), ("ds", 100_000), ("api", 130_000), ("names", 200_000)]
+        vec![("glif", 900_000), ("ufo", 240_000), ("ds", 200_000), ("api", 260_000), ("names", 400_000)]
     } else {
         vec![("glif", 9_000), ("ufo", 3_000), ("ds", 2_000), ("api", 3_000), ("names", 3_000)]
     }
@@ -453,6 +452,10 @@ pub fn main(a: &Args) {
         Some("depth") => depth(a),
         Some("file") => file(a),
         Some("witness") => witness(a),
+        Some("corr") => {
+            install_hook();
+            gen::corr(a.seed, a.thorough(), &a.out)
+        }
         _ => {
             eprintln!("usage: c03 run|worker|one|depth ...");
             std::process::exit(2);
